@@ -7,9 +7,9 @@ where=$($python -c "import xtuml; print(xtuml.__file__)")
 case "$where" in $wt/*) ;; *) echo "wrong import path $where"; exit 2;; esac
 suite=$($python -m pytest -q -p no:cacheprovider --timeout=900 2>&1 | tail -1)
 $python demo.py > /tmp/demo_with.out 2>&1; with=$?
-git stash -q -- xtuml bridgepoint
+git diff -- xtuml bridgepoint > /tmp/confirm_$$.patch; git apply -R /tmp/confirm_$$.patch
 $python demo.py > /tmp/demo_without.out 2>&1; without=$?
-git stash pop -q
+git apply /tmp/confirm_$$.patch; rm -f /tmp/confirm_$$.patch
 echo "suite: $suite | demo with change: exit $with | without: exit $without"
 [ "$with" = 1 ] && [ "$without" = 0 ] || { echo "NOT CONFIRMED"; exit 1; }
 case "$suite" in *"244 passed"*) ;; *) echo "NOT CONFIRMED (suite)"; exit 1;; esac
